@@ -123,7 +123,7 @@ def run(ck):
         for d_, what_ in sk.single_gate_sweep(ck, 2, rng, inject_cb=cb):
             fails.append(('value', d_, what_))
     ck.rule('random circuits (all 33 primitive kinds, forks, DFF Q/QN, latches, unconnected pins, output-less gates) x 0/1 stimuli x '
-            'sims in {1,3,7,8,9,17} x cycles 1..5 x c_reuse x strip_forks; distinct = circuit fingerprint (sizes, kind set)')
+            'sims in {1,3,7,8,9,17} and one case in seven in {63,65,130,257} x cycles 1..5 x c_reuse x strip_forks; distinct = circuit fingerprint (sizes, kind set)')
     # evaluate the model inside Coq
     chunks = [coq_cases[i:i + 120] for i in range(0, len(coq_cases), 120)]
     outs = ck.coq_eval_many('ls', [lc.cases_file(ch) for ch in chunks])
